@@ -418,10 +418,35 @@ func worldOf(name, user, pass string, cors bool) World {
 
 var viewSample = []string{"/ready", "/loki/api/v1/push", "/api/v1/query", "/assets/app.js", "/__verif_nope"}
 
+// defaultWiring: the wiring of main() as the driver knows it.  Used only for the black-box fallback when main.go can
+// no longer be read (then nothing is assembled in process; the table merely says which paths to request).
+var useDefaultWiring bool
+
+func defaultWiring() ([]WItem, []string) {
+	return []WItem{
+			{Kind: "use", Name: "middleware.BasicAuthMiddleware", Cond: condAuth},
+			{Kind: "use", Name: "middleware.AcceptEncodingMiddleware"},
+			{Kind: "use", Name: "middleware.CorsMiddleware", Cond: condCors},
+			{Kind: "use", Name: "middleware.LoggingMiddleware"},
+			{Kind: "call", Name: "commonroutes.RegisterCommonRoutes"},
+			{Kind: "call", Name: "writer.Init", Cond: condWriter},
+			{Kind: "call", Name: "reader.Init", Cond: condReader},
+			{Kind: "call", Name: "view.Init", Cond: condReader},
+			{Kind: "call", Name: "httpStart"}},
+		[]string{"RouteQueryRangeApis", "RouteSelectLabels", "RouteSelectPrometheusLabels", "RoutePrometheusQueryRange", "RouteTempo",
+			"RouteMiscApis", "RouteProf", "PluggableRoutes"}
+}
+
 func tables(repo string) (*RoutesOut, []WItem, []string) {
-	items := mainWiring(repo)
-	calls := readerRouting(repo)
-	writerRouting(repo)
+	var items []WItem
+	var calls []string
+	if useDefaultWiring {
+		items, calls = defaultWiring()
+	} else {
+		items = mainWiring(repo)
+		calls = readerRouting(repo)
+		writerRouting(repo)
+	}
 	out := &RoutesOut{Wiring: items, ReaderCalls: calls, Chain: chainOf(items), Methods: AllMethods, Worlds: map[string][]RouteCase{},
 		Entries: map[string]int{}, ViewEmbed: view.HaveStatic}
 	for _, wn := range []string{"std", "view", "rdr"} {
@@ -641,6 +666,9 @@ func judge(cs *Case, o Obs, exact bool) (string, string) {
 	if cs.Reg && !carries {
 		if o.Status != 401 && o.Status != 400 {
 			return "not-rejected-with-401", ""
+		}
+		if o.Hr == "unknown" && o.Status == 400 && o.Body != "Invalid authorization header\n" {
+			return "not-rejected-with-401", "" // black box: a 400 that is not the middleware's was produced behind it
 		}
 		if o.Status == 400 && !malformed[cs.Cls] {
 			return "400-for-wellformed-header", ""
@@ -958,6 +986,13 @@ func writeJSON(path string, v any) {
 func main() {
 	if len(os.Args) < 2 {
 		fail("usage: c20 routes|run|blackbox ...")
+	}
+	for i, a := range os.Args {
+		if a == "-default-wiring" {
+			useDefaultWiring = true
+			os.Args = append(os.Args[:i], os.Args[i+1:]...)
+			break
+		}
 	}
 	switch os.Args[1] {
 	case "routes":
